@@ -21,6 +21,27 @@ type FileEntry struct {
 	Key    string      `json:"key"` // pool index "0".."2" or a literal malformed key
 	Blocks []string    `json:"blocks,omitempty"`
 	Atts   [][2]string `json:"atts,omitempty"`
+	// Spell chooses among spellings of the same pool key that the import decodes to the same 48
+	// bytes: 0 "0x"+lower-case hex, 1 "0x"+upper-case hex, 2 lower-case without prefix, 3 mixed case.
+	Spell int `json:"spell,omitempty"`
+}
+
+func spell(hexKey string, how int) string {
+	switch how {
+	case 1:
+		return "0x" + strings.ToUpper(hexKey)
+	case 2:
+		return hexKey
+	case 3:
+		b := []byte(hexKey)
+		for i := 0; i < len(b); i += 3 {
+			b[i] = strings.ToUpper(string(b[i]))[0]
+		}
+
+		return "0x" + string(b)
+	}
+
+	return "0x" + hexKey
 }
 
 // Step is one action of a C10 history.
@@ -103,6 +124,9 @@ func genFile(t *rapid.T, g *genModel) (string, []FileEntry, bool) {
 	for i := 0; i < n; i++ {
 		k := rapid.IntRange(0, 2).Draw(t, "fkey")
 		e := FileEntry{Key: strconv.Itoa(k)}
+		if rapid.IntRange(0, 3).Draw(t, "respell") == 0 {
+			e.Spell = rapid.IntRange(1, 3).Draw(t, "spell")
+		}
 		nb := rapid.IntRange(0, 3).Draw(t, "nblocks")
 		for j := 0; j < nb; j++ {
 			e.Blocks = append(e.Blocks, strconv.FormatInt(rel(t, g.f[k].slot, "slot"), 10))
@@ -214,7 +238,7 @@ func buildFile(s *Step) ([]byte, bool) {
 	for _, e := range s.Entries {
 		d := &Data{}
 		if ki, err := strconv.Atoi(e.Key); err == nil && ki >= 0 && ki <= 2 && len(e.Key) == 1 {
-			d.PubKey = "0x" + KeyHex(ki)
+			d.PubKey = spell(KeyHex(ki), e.Spell)
 		} else {
 			d.PubKey = e.Key
 			wellFormed = false
@@ -241,7 +265,7 @@ func buildFile(s *Step) ([]byte, bool) {
 }
 
 type outcome struct {
-	imports, importsOK, mixed, repeated, rejectedMeta, malformed, firstImport, afterRestart, probes int
+	imports, importsOK, mixed, repeated, respelt, rejectedMeta, malformed, firstImport, afterRestart, probes int
 	trace                                                                                           []string
 }
 
@@ -371,12 +395,17 @@ func run(c *Case) (*outcome, *vkit.Violation, error) {
 					o.firstImport++
 				}
 				seen := map[string]bool{}
+				spelt := map[string]int{}
 				for _, e := range s.Entries {
 					ki, _ := strconv.Atoi(e.Key)
 					if seen[e.Key] {
 						o.repeated++
+						if spelt[e.Key] != e.Spell {
+							o.respelt++
+						}
 					}
 					seen[e.Key] = true
+					spelt[e.Key] = e.Spell
 					fm := floors{-1, -1, -1}
 					for _, b := range e.Blocks {
 						v, _ := parseU(b)
@@ -502,6 +531,7 @@ func TestC10(t *testing.T) {
 		vkit.S.ClassN("imports-exit-0-wellformed", o.importsOK)
 		vkit.S.ClassN("entry-newer-in-one-field-older-in-another", o.mixed)
 		vkit.S.ClassN("file-names-a-key-twice", o.repeated)
+		vkit.S.ClassN("file-names-a-key-twice-in-different-spellings", o.respelt)
 		vkit.S.ClassN("metadata-rejections", o.rejectedMeta)
 		vkit.S.ClassN("malformed-file-exit-0", o.malformed)
 		vkit.S.ClassN("first-import-into-empty-db", o.firstImport)
